@@ -712,9 +712,9 @@ func (b *tkBatch) maybeFlush() {
 // ---------------------------------------------------------------- stream "token"
 
 func runToken(c *Ctx) {
-	n := 2000
+	n := 1500
 	if c.Thorough {
-		n = 25000
+		n = 15000
 	}
 	b := &tkBatch{c: c}
 	for i := 0; i < n; i++ {
@@ -846,6 +846,13 @@ func tkSerializeDecode(c *Ctx, b *tkBatch, format string, tok cashu.Token, tc tk
 	// the modelled marshallers (Model.TokenWire: struct tags, omitempty, JSON escaping, CBOR heads) reproduce the
 	// serialised string byte for byte
 	b.add("serialize", L(A("token.serialize"), tkTokenSx(tok)), Render(S(ser)), replay)
+	// the canonical parser of the model (proved inverse of the modelled marshaller) reads the REAL payload back
+	// to the same token the real Unmarshal yields (compared below with the decoded token)
+	parseCmd := "token.parse-json"
+	if format == "v4" {
+		parseCmd = "token.parse-cbor"
+	}
+	b.add(parseCmd, L(A(parseCmd), tkHex(payload)), Render(L(A("some"), tkTokenSx(tok))), replay)
 
 	var dec cashu.Token
 	if p := tkRecover(func() { dec, err = cashu.DecodeToken(ser) }); p != "" {
@@ -1150,13 +1157,32 @@ func tkExpectDecode(c *Ctx, model string) (string, bool) {
 			}
 			if version == 4 {
 				var t cashu.TokenV4
-				if err := cbor.Unmarshal(p, &t); err != nil {
-					return mkErr("cbor.Unmarshal: " + err.Error())
+				uerr := cbor.Unmarshal(p, &t)
+				// one-directional tie of the canonical CBOR parser: what it accepts, cbor.Unmarshal decodes identically
+				if canon := c.Drv.Ask(L(A("token.parse-cbor"), tkHex(p))); canon != "none" {
+					c.Hist("canonical-parser", "cbor: accepted")
+					if uerr != nil || canon != Render(L(A("some"), tkV4Sx(t, false))) {
+						c.Disagree([]string{"C14"}, "token.parse-cbor "+hex.EncodeToString(p), fmt.Sprintf("real cbor.Unmarshal: err=%v token=%s", uerr, tkClip(Render(tkV4Sx(t, false)), 1500)), tkClip(canon, 1500), nil)
+					}
+				} else {
+					c.Hist("canonical-parser", "cbor: not canonical")
+				}
+				if uerr != nil {
+					return mkErr("cbor.Unmarshal: " + uerr.Error())
 				}
 				return "ok", "(ok " + Render(tkV4Sx(t, false)) + ")", "", true
 			}
 			var t cashu.TokenV3
-			if err := json.Unmarshal(p, &t); err != nil {
+			uerr := json.Unmarshal(p, &t)
+			if canon := c.Drv.Ask(L(A("token.parse-json"), tkHex(p))); canon != "none" {
+				c.Hist("canonical-parser", "json: accepted")
+				if uerr != nil || canon != Render(L(A("some"), tkV3Sx(t))) {
+					c.Disagree([]string{"C14"}, "token.parse-json "+hex.EncodeToString(p), fmt.Sprintf("real json.Unmarshal: err=%v token=%s", uerr, tkClip(Render(tkV3Sx(t)), 1500)), tkClip(canon, 1500), nil)
+				}
+			} else {
+				c.Hist("canonical-parser", "json: not canonical")
+			}
+			if err := uerr; err != nil {
 				return mkErr("error unmarshaling token: " + err.Error())
 			}
 			// the check DecodeTokenV3 makes after Unmarshal is the model's (checkV3); the driver is idle here
@@ -1468,7 +1494,7 @@ func runTokenFuzz(c *Ctx) {
 	// (2) sampled strings of length 4..8 over the alphabet; also every proper prefix of both version prefixes + 0..3 symbols
 	nSample := 6000
 	if c.Thorough {
-		nSample = 150000
+		nSample = 120000
 	}
 	for i := 0; i < nSample; i++ {
 		l := 4 + r.Intn(5)
